@@ -123,19 +123,26 @@ def run(world, tier, info, only=None):
     ck.ob("R3", "push_token/spacing-before-text", all(not any(b in g.reach_from(g.blocks[tb]["t"]["to"]) for b in sp) for tb in text), site(s),
           "newlines and blanks are written before the token's text")
     ncol = 0
-    for bi, si, st in flow.field_writes(g, r"migrator::Migrator$", "column"):
-        ncol += 1
-        rv = st[2]
-        ops = [o for o in rv[1:] if isinstance(o, list) and o and o[0] in ("c", "m", "k")]
-        srcs = set()
-        for o in ops:
-            srcs |= g.prov(o, depth=16)
-        lens = sorted({x[1] for x in srcs if x[0] == "call" and re.search(r"(str>|String|impl str>)::len$", x[1] or "")})
-        ck.ob("R3", "column-in-chars:push_token@%d" % ncol, not lens, site(s, st[3]),
-              "self.column advances by a character count" if not lens else
-              "self.column receives a byte length (%s) while Token.column counts characters: after multi-byte text the gap to the next token "
-              "saturates to 0 and tokens are written glued together" % lens)
-    ck.floor("R3", "writes to Migrator.column", ncol, 3)
+    # the cursor may be maintained in push_token itself or in private helpers of the Migrator (move_to / advance ...)
+    for q, sq in sorted(w.fns.items()):
+        if not q.startswith(MIG + "::") or sq.get("alias_of") or "{" in q[len(MIG):]:
+            continue
+        gq = Fn(w.mir(q))
+        k = 0
+        for bi, si, st in flow.field_writes(gq, r"migrator::Migrator$", "column"):
+            ncol += 1
+            k += 1
+            rv = st[2]
+            ops = [o for o in rv[1:] if isinstance(o, list) and o and o[0] in ("c", "m", "k")]
+            srcs = set()
+            for o in ops:
+                srcs |= gq.prov(o, depth=16)
+            lens = sorted({x[1] for x in srcs if x[0] == "call" and re.search(r"(str>|String|impl str>)::len$", x[1] or "")})
+            ck.ob("R3", "column-in-chars:%s@%d" % (q.split("::")[-1], k), not lens, site(sq, st[3]),
+                  "self.column advances by a character count" if not lens else
+                  "self.column receives a byte length (%s) while Token.column counts characters: after multi-byte text the gap to the next token "
+                  "saturates to 0 and tokens are written glued together" % lens)
+    ck.floor("R3", "writes to Migrator.column", ncol, 2)
     # ---------------- R4 cmd_migrate --------------------------------------------------------------------------
     s = w.fns[EXEC]
     g = Fn(w.mir(EXEC))
